@@ -21,7 +21,7 @@ def setup(ctx):
 
 
 def _n1(ctx):
-    return len(PAIRS1D) * (6 if ctx.tier == "quick" else 150)
+    return len(PAIRS1D) * (6 if ctx.tier == "quick" else 1200)
 
 
 @group(quick=_n1, thorough=_n1, exhaustive=True)
@@ -75,7 +75,7 @@ def shift1d(ctx, rng, idx):
 
 
 def _n2(ctx):
-    return len(PAIRS2D) * (1 if ctx.tier == "quick" else 30)
+    return len(PAIRS2D) * (1 if ctx.tier == "quick" else 250)
 
 
 def roll2d(a, nx, ny, kx, ky):
@@ -131,7 +131,7 @@ MIXED = [(nx, ny, k, ax) for nx in range(1, 6) for ny in range(1, 6) for ax in (
 
 
 def _n3(ctx):
-    return len(MIXED) * (1 if ctx.tier == "quick" else 30)
+    return len(MIXED) * (1 if ctx.tier == "quick" else 250)
 
 
 @group(quick=_n3, thorough=_n3, exhaustive=True)
